@@ -136,6 +136,20 @@ impl Scenario for C08 {
                     p.faults.push(format!("content-{k}"));
                 }
             }
+            9 => {
+                let mut m = rng.pick(crate::corpus::MAGICS).to_vec();
+                m.extend_from_slice(&p.data);
+                p.data = m;
+                p.faults.push("content-foreign-magic-prefix".into());
+            }
+            10 => {
+                // a short structural prefix (BOM pieces, NUL, CR/LF) in front of the file
+                let n = 1 + rng.below(4);
+                let mut m: Vec<u8> = (0..n).map(|_| *rng.pick(&crate::corpus::SHORT_ALPHABET)).collect();
+                m.extend_from_slice(&p.data);
+                p.data = m;
+                p.faults.push("content-short-structural-prefix".into());
+            }
             8 => {
                 // one line longer than 64 KiB somewhere in the file
                 let n = 65_000 + rng.below(70_000);
